@@ -68,7 +68,10 @@ def gen_store(rng, options=None):
     if rng.random() < 0.7:
         defaults = {}
         for n, d in (('SocksPort', ['9050']), ('ExitPolicy', ['reject *:25', 'accept *:*']), ('Nickname', ['Unnamed']),
-                     ('LongLivedPorts', ['21,22,706']), ('DNSPort', ['53']), ('ContactInfo', ['nobody'])):
+                     ('LongLivedPorts', ['21,22,706']), ('DNSPort', ['53']), ('ContactInfo', ['nobody']),
+                     # typed scalars with a default of their own (an option another controller resets is announced by its bare keyword)
+                     ('NumCPUs', ['0']), ('MaxCircuitDirtiness', ['600']), ('AvoidDiskWrites', ['0']), ('CookieAuthentication', ['0']),
+                     ('KeepalivePeriod', ['300']), ('PathBiasNoticeRate', ['0.7'])):
             if n in tab.names and rng.random() < 0.6:
                 defaults[n] = d
     for n in tab.names:
@@ -209,6 +212,8 @@ def gen_ops(rng, store, defaults, *, n_ops, conf_events, aliasing, options=None,
                     vals = tor_values(tab, n, [rng.choice(items_for(tab, n)) for _ in range(rng.choice([0, 1, 1, 2, 3]))])
                 elif n in tab.numeric_default:
                     vals = [cfg.wire_typed(tab.types[n], rng.choice(SCALARS[n]))]
+                    if defaults and n in defaults and rng.random() < 0.4:
+                        vals = []       # reset by another controller: the bare keyword; the view shows the (typed) default
                 else:
                     vals = [v for v in [cfg.wire(rng.choice(SCALARS[n]))] if v != ''] if rng.random() < 0.7 else []
                 changes.append([spell(n), vals])
